@@ -273,3 +273,45 @@ class Handler(Contract):
 
 
 CONTRACTS = [ToRoute(), RequestMethod(), RouteGetItem(), Resolve(), Handler()]
+
+
+class MakeParamsDict(Contract):
+    """Route.make_params_dict(names, values): a NEW dict {name: value} over zip(names, values) without the anonymous names.
+    (The dict goes to the handler as **kwargs and into environ['route.url_args']: it must belong to this request alone.)"""
+    props = ('C01', 'C10', 'C08')
+    file = 'ombott/router/radirouter.py'
+    qualname = 'Route.make_params_dict'
+    assumptions = ('a dict comprehension builds a new dict, visiting zip(names, values) in order (Python semantics)',)
+    expected_labels = ('post.fresh_dict_of_named_pairs',)
+
+    def pre(self, X):
+        self.names = VOpaque(X.fresh(PyObj, 'names'), 'names')
+        self.values = VOpaque(X.fresh(PyObj, 'values'), 'values')
+        self.comp = None
+        return {'cls': VObj('RouteClass', {'anon_prefix': VStr('anon-'), '_no_params': VObj('SharedDict', {})}),
+                'names': self.names, 'values': self.values}
+
+    def genexp_hook(self, X, node):
+        import ast
+        ok = False
+        try:
+            (g,) = node.generators
+            ok = (isinstance(node, ast.DictComp) and isinstance(g.target, ast.Tuple) and len(g.target.elts) == 2
+                  and isinstance(g.iter, ast.Call) and isinstance(g.iter.func, ast.Name) and g.iter.func.id == 'zip'
+                  and [ast.unparse(a) for a in g.iter.args] == ['names', 'values']
+                  and ast.unparse(node.key) == g.target.elts[0].id and ast.unparse(node.value) == g.target.elts[1].id
+                  and len(g.ifs) == 1 and ast.unparse(g.ifs[0]) == f'not {g.target.elts[0].id}.startswith(cls.anon_prefix)')
+        except Exception:
+            ok = False
+        self.comp = VObj('FreshDict', {'ok': VBool(ok)})
+        return self.comp
+
+    def post(self, X, ret):
+        X.prove('post.fresh_dict_of_named_pairs', z3.BoolVal(ret is self.comp and self.comp is not None) if self.comp is None
+                else z3.And(z3.BoolVal(ret is self.comp), self.comp.fields['ok'].t))
+
+    def post_raise(self, X, exc):
+        X.prove('raises.nothing', z3.BoolVal(False))
+
+
+CONTRACTS.append(MakeParamsDict())
